@@ -171,11 +171,16 @@ def run(ctx):
         optsets += [{"generateNDJson": False, "generateHDF5": True}, {"generateNDJson": True, "generateHDF5": True, "generateCMakeLists": False}]
     ecases, emeta = [], []
     pk = [("random", None)] * (1 if quick else 6) + [("reserved-words", reserved_words_model(tables, rng))]
+    # degenerate but valid packages: no protocol at all, nothing but a protocol over primitives, nothing but an enum / an alias
+    pk += [("types-only", "Tr: !record\n  fields:\n    a: int32\n    b: Te\n    c: Tu\n\nTe: !enum\n  values: [p, q]\n\nTu: [int32, string]\n\nTg<T>: !record\n  fields:\n    v: T*\n"),
+           ("protocol-only", "Po: !protocol\n  sequence:\n    a: int32\n    b: !stream\n      items: string\n    c: float32[]\n"),
+           ("enum-only", "Eo: !flags\n  values: [p, q]\n"),
+           ("alias-only", "Ao: int32*\n")]
     for k, (what, model) in enumerate(pk):
         ns = "Wf" + "abcdefghijklmnopqrstuvwxyz"[k % 26]
         if model is None:
             model = ymodel.Gen(rng, namespace=ns).build().yaml()
-        for oi, opts in enumerate(optsets if what == "random" or not quick else optsets[:2]):
+        for oi, opts in enumerate(optsets if what != "reserved-words" or not quick else optsets[:2]):
             d = os.path.join(ctx.scratch, "w%d_%d" % (k, oi))
             rc, out_ = build(ctx, d, ns, model, cfg_for(opts))
             rep = {"namespace": ns, "model": model, "options": opts, "kind": what}
